@@ -110,6 +110,14 @@ class ImageWriter:
     def export_image(self, image: LTImage) -> str:
         """Save an LTImage to disk"""
         (width, height) = image.srcsize
+        if not all(
+            isinstance(v, int) and 0 <= v < 2**31
+            for v in (width, height, image.bits)
+        ):
+            raise PDFValueError(
+                "Invalid image geometry: width=%r, height=%r, bits=%r"
+                % (width, height, image.bits)
+            )
 
         filters = image.stream.get_filters()
 
